@@ -216,6 +216,15 @@ Obs(c) ==
                     static |-> M!Static(c)]
               ELSE [kind |-> IF M!WellFormed(c) THEN {"error"} ELSE M!OutcomeKinds(c)]]
 
+\* scaling an assignment-defined parameter reads its computed value; when the content cannot be
+\* evaluated for reasons outside the dependency graph (a non-dsum function applied to a data set, ...)
+\* nothing is promised about that value, so such a call is neither generated nor judged
+Unjudgeable(op, c) ==
+    /\ op.op = "scale_parameter"
+    /\ op.n \in DOMAIN c.pars
+    /\ c.pars[op.n].k = "ia"
+    /\ M!WellFormed(c) /\ ~Evaluable(c)
+
 (***************************************************************************)
 (* Generator of histories                                                  *)
 (***************************************************************************)
@@ -272,7 +281,8 @@ SingularOps(cc) ==
       {[op |-> "add_parameter", n |-> n, v |-> v] : v \in ValueMenu(n)}
       \cup {[op |-> "remove_parameter", n |-> n]}
       \cup {[op |-> "update_parameter", n |-> n, v |-> v] : v \in ValueMenu(n)}
-      \cup {[op |-> "scale_parameter", n |-> n, f |-> 2]}
+      \cup (IF Unjudgeable([op |-> "scale_parameter", n |-> n, f |-> 2], cc) THEN {}
+            ELSE {[op |-> "scale_parameter", n |-> n, f |-> 2]})
       \cup {[op |-> "make_parameter_dynamic", n |-> n, iv |-> iv, st |-> st] :
                iv \in {None, Num(4)},
                st \in {Empty} \cup {(r :> 2) : r \in DOMAIN cc.rxn \cup M!SurFluxes(cc) \cup {"nosuch"}}}
@@ -313,7 +323,7 @@ SingularOps(cc) ==
 
 PluralOps(cc) ==
     LET a == First  b == Other(First) IN
-    {[op |-> "plural", name |-> "add_parameters",
+    {o \in {[op |-> "plural", name |-> "add_parameters",
       ops |-> <<[op |-> "add_parameter", n |-> a, v |-> Num(5)], [op |-> "add_parameter", n |-> b, v |-> Num(3)]>>],
      [op |-> "plural", name |-> "update_parameters",
       ops |-> <<[op |-> "update_parameter", n |-> a, v |-> Num(3)], [op |-> "update_parameter", n |-> b, v |-> Num(5)]>>],
@@ -327,6 +337,7 @@ PluralOps(cc) ==
       ops |-> <<[op |-> "update_variable", n |-> a, v |-> Num(3)], [op |-> "update_variable", n |-> b, v |-> Num(5)]>>],
      [op |-> "plural", name |-> "remove_variables",
       ops |-> <<[op |-> "remove_variable", n |-> b], [op |-> "remove_variable", n |-> a]>>]}
+     : \A j \in DOMAIN o.ops : ~Unjudgeable(o.ops[j], cc)}
 
 Ops(cc) == SingularOps(cc) \cup PluralOps(cc)
 
